@@ -38,7 +38,7 @@ pub fn case(ctx: &mut Ctx, cfg: &Cfg, data: &[u8], kind: &str) {
         }
     }
     ctx.sample(format!("{} kind={} len={} comp_len={} cmf={:#x}", cfg.describe(), kind, data.len(), out.len(), out[0]));
-    ctx.line(&format!("ENC id={} checks=rt,window,header modes=- {} in={} comp={}", id, cfg.describe(), hex(data), hex(&out)));
+    ctx.line(&format!("ENC id={} rp=WIN checks=rt,window,header modes=- {} in={} comp={}", id, cfg.describe(), hex(data), hex(&out)));
 }
 
 pub fn run(ctx: &mut Ctx) {
